@@ -127,6 +127,7 @@ func init() {
 		"strconv.FormatFloat": extFormatFloat,
 		"strconv.Quote":       extQuote,
 
+		"(*github.com/jf-tech/go-corelib/ios.LineNumReportingCsvReader).LineNum": extCsvLineNum,
 		"runtime.KeepAlive": extNop,
 		"runtime.GC":        extNop,
 		"os.Getenv":         func(e *Exec, _ *frame, _ token.Pos, _ *ssa.Function, _ []Value) Value { return StrV{} },
@@ -596,11 +597,13 @@ func (e *Exec) markPooled(x Value, on bool) {
 
 func extOnceDo(e *Exec, fr *frame, pos token.Pos, fn *ssa.Function, args []Value) Value {
 	p, _ := args[0].(PtrV).single()
-	key := fmt.Sprintf("once:%p", p)
-	if _, done := e.ghost[key]; done {
+	if e.onceDone == nil {
+		e.onceDone = map[*Value]bool{}
+	}
+	if e.onceDone[p] {
 		return nil
 	}
-	e.ghost[key] = e.ts.True
+	e.onceDone[p] = true
 	e.call(fr, pos, args[1], nil)
 	return nil
 }
@@ -1035,4 +1038,23 @@ func (e *Exec) findMethod(t types.Type, name string) *ssa.Function {
 		return nil
 	}
 	return e.prog.MethodValue(sel)
+}
+
+// (*ios.LineNumReportingCsvReader).LineNum reads csv.Reader's unexported numLine through
+// reflection; the engine reads the field directly.
+func extCsvLineNum(e *Exec, fr *frame, pos token.Pos, fn *ssa.Function, args []Value) Value {
+	p, ok := args[0].(PtrV).single()
+	if !ok {
+		panic(unsupported("LineNum through multi-target pointer"))
+	}
+	outer := (*p).(StructV)
+	inner := outer[0].(PtrV) // embedded *csv.Reader
+	q, ok := inner.single()
+	if !ok {
+		panic(unsupported("LineNum: nil csv.Reader"))
+	}
+	recvT := fn.Signature.Recv().Type().(*types.Pointer).Elem()
+	csvT := recvT.Underlying().(*types.Struct).Field(0).Type().(*types.Pointer).Elem()
+	idx := structFieldIndex(csvT, "numLine")
+	return (*q).(StructV)[idx]
 }
